@@ -187,9 +187,11 @@ func Valid(t *rapid.T, l syntax.LangVariant) string {
 // Any draws arbitrary input: valid programs, programs of the wrong variant,
 // mutated programs and raw bytes.
 func Any(t *rapid.T, l syntax.LangVariant) string {
-	switch rapid.IntRange(0, 9).Draw(t, "anykind") {
+	switch rapid.IntRange(0, 10).Draw(t, "anykind") {
 	case 0, 1:
 		return Valid(t, l)
+	case 10:
+		return Soup(t)
 	case 2:
 		all := CorpusAll()
 		return all[rapid.IntRange(0, len(all)-1).Draw(t, "corpusany")]
